@@ -99,6 +99,11 @@ func runC13Case(c *fw.Ctx, id string, cs c13Case) {
 				}
 			}
 		}
+		if cs.Entry == "scan-continuation" {
+			// the opening request is answered normally; the state applies to the
+			// continuation (scanner id set)
+			return req.Scan != nil && req.Scan.ScannerId != nil && !req.Scan.GetCloseScanner() && cl.ScanOpID(req) != ""
+		}
 		return req.Scan != nil && cl.ScanOpID(req) != ""
 	}
 	var tooBusy int32
@@ -149,7 +154,7 @@ func runC13Case(c *fw.Ctx, id string, cs c13Case) {
 			return nil
 		}
 		cl.OnRequest = func(req *sim.Request) *sim.Reply {
-			if req.Scan != nil && cl.ScanOpID(req) != "" && string(req.Scan.GetRegion().GetValue()) != string(sim.MetaRegionName) {
+			if isUser(req) && req.Scan != nil && string(req.Scan.GetRegion().GetValue()) != string(sim.MetaRegionName) {
 				if atomic.AddInt32(&tooBusy, 1) == 9 {
 					time.AfterFunc(300*time.Millisecond, reached)
 				}
@@ -285,8 +290,8 @@ func runC13Case(c *fw.Ctx, id string, cs c13Case) {
 				r.errs = append(r.errs, x.Error)
 			}
 			r.err = res[len(res)-1].Error
-		case "scan":
-			s, _ := hrpc.NewScanRangeStr(callCtx, "t", "n", "", hrpc.Attribute("opid", []byte(opid)))
+		case "scan", "scan-continuation":
+			s, _ := hrpc.NewScanRangeStr(callCtx, "t", "n", "", hrpc.Attribute("opid", []byte(opid)), hrpc.NumberOfRows(1))
 			sc := client.Scan(s)
 			for {
 				_, err := sc.Next()
@@ -396,13 +401,16 @@ func init() {
 		},
 		Run: func(c *fw.Ctx) {
 			states := []string{"zk-blocked", "meta-unanswered", "probe-unanswered", "dial-hanging", "retry-backoff", "lookup-backoff", "send-queue-busy", "server-silent"}
-			entries := []string{"get", "get-unbatched", "batch", "batch-call-ctx", "scan"}
+			entries := []string{"get", "get-unbatched", "batch", "batch-call-ctx", "scan", "scan-continuation"}
 			var cases []c13Case
 			reps := c.Pick(1, 20)
 			r := c.Rand("c13")
 			for rep := 0; rep < reps; rep++ {
 				for _, s := range states {
 					for _, e := range entries {
+						if e == "scan-continuation" && s != "server-silent" && s != "retry-backoff" {
+							continue // elsewhere the continuation waits exactly like the opening request
+						}
 						for _, x := range []bool{false, true} {
 							cases = append(cases, c13Case{State: s, Entry: e, Expire: x, Seed: r.Int63()})
 						}
